@@ -246,7 +246,8 @@ static ContentPtr vbuild(const Sx& x, std::vector<int64_t>& cur, const VSession&
   int64_t length = -1;
   if (w.has_len) length = w.len_true ? inner->length() : w.len;
   ArrayGeneratorPtr gen = std::make_shared<ScriptedGenerator>(form, length, inner, w.script, which, w.counter);
-  return std::make_shared<VirtualArray>(Identities::none(), util::Parameters(), gen, vs.cache,
+  // the node carries the parameters of the array it stands for (ak.virtual(..., parameters=...))
+  return std::make_shared<VirtualArray>(Identities::none(), inner->parameters(), gen, vs.cache,
                                         "k" + std::to_string(which));
 }
 
@@ -427,14 +428,33 @@ static std::string handle_virt(const Sx& cs) {
   }
   vs.cache = cache;
 
-  ContentPtr eager = build(L);
+  auto counts = [&]() {
+    std::string n = "(n";
+    for (auto& w : vs.wraps) n += " " + std::to_string(*w.counter);
+    return n + ")";
+  };
+  auto trace = [&]() {
+    std::string t = "(t";
+    for (auto& x : g_trace) t += " " + x;
+    return t + ")";
+  };
+  ContentPtr eager(nullptr), virt(nullptr);
+  std::cerr << "@E -1" << std::endl;
+  try { eager = build(L); }
+  catch (std::invalid_argument& e) { return "(step (v build) (e err value) (n) (t))"; }
   std::vector<int64_t> cur;
   g_trace.clear();
-  ContentPtr virt = vbuild(L, cur, vs, false);
+  std::cerr << "@V -1" << std::endl;
+  // construction is step 0 of the answer (a parent's constructor may already ask the child for its length)
+  std::string out;
+  try { virt = vbuild(L, cur, vs, false); }
+  catch (std::invalid_argument& e) { return "(step (v err value) (e build) " + counts() + " " + trace() + ")"; }
+  catch (std::logic_error& e) { throw; }
+  catch (std::runtime_error& e) { return "(step (v err runtime) (e build) " + counts() + " " + trace() + ")"; }
+  out = "(step (v build) (e build) " + counts() + " " + trace() + ")";
 
   const Sx& ops = field_of(cs, "ops");
   std::vector<ContentPtr> vres, eres;
-  std::string out;
   for (size_t k = 1; k < ops.size(); k++) {
     const Sx& st = ops[k];
     g_trace.clear();
@@ -477,14 +497,7 @@ static std::string handle_virt(const Sx& cs) {
       }
     }
     vres.push_back(vr); eres.push_back(er);
-    std::string n = "(n";
-    for (auto& w : vs.wraps) n += " " + std::to_string(*w.counter);
-    n += ")";
-    std::string t = "(t";
-    for (auto& x : g_trace) t += " " + x;
-    t += ")";
-    if (k > 1) out += " ";
-    out += "(step " + vtxt + " " + etxt + " " + n + " " + t + ")";
+    out += " (step " + vtxt + " " + etxt + " " + counts() + " " + trace() + ")";
   }
   return out;
 }
@@ -632,6 +645,17 @@ static std::string handle_part(const Sx& cs) {
         start = 0;
         for (auto s : rs) { es += " " + dump(eo.cres->getitem_range_nowrap(start, s)); start = s; }
         es += ")";
+      }
+      // element types (a slice keeps the type; repartition merges and may legitimately change the node class)
+      if (st.head() == "range" || st.head() == "narrow") {
+        std::string et = eo.cres->type(util::TypeStrs())->tostring();
+        bool same = true;
+        std::string pt;
+        for (int64_t i = 0; i < po.pres->numpartitions(); i++) {
+          pt = po.pres->partition(i)->type(util::TypeStrs())->tostring();
+          if (pt != et) { same = false; break; }
+        }
+        es += same ? " (ty same)" : " (ty differ " + codes(pt) + " " + codes(et) + ")";
       }
     }
     if (po.ok && po.next.get() != nullptr && qo.ok && qo.next.get() != nullptr) {
